@@ -144,3 +144,11 @@ CHECKS["C08"] = dict(
     design_ref="DESIGN.md section 3 C08, section 2.5",
     note="The worker pool and the clock are replaced (module attribute cubed.runtime.asyncio.time, restored). All attempts of one submission happen at its completion instant. Future hashes are creation numbers so set iteration is reproducible. Empty input excluded. Nothing requires a backup to be launched. Remote executors are not covered.",
 )
+
+CHECKS["C07"] = dict(
+    level="exploration",
+    technique="harness-owned schedules of the real scheduler: generated plan-shaped DAGs x per-task virtual durations run by the real async_map_dag on a virtual-time event loop with a scripted pool (and by the real single-threaded executor), causal ordering oracle; plus end-to-end generated programs on the threads/single-threaded executors over a tracing store with injected per-key write latency (premature-read / fill-value detection from the trace)",
+    text="Tier A decides the scheduling part: because the harness owns every completion time, each generated duration assignment is one interleaving the real async_map_dag (aiostream merge, visit_nodes / visit_node_generations, batching, backups, retries) admits; every task submission must follow the completion of all tasks of all ancestor operations, array creation first. Tier B runs real plans with delayed chunk writes: a chunk read that misses (silent fill value), precedes the completed write of its key, or precedes the array's metadata is a violation; finalized plans must order every operation after create-arrays; a run that fails only under the parallel schedule is attributed to the schedule.",
+    design_ref="DESIGN.md section 3 C07, section 2.5",
+    note="Tier A models storage latency as task duration. Tier B samples OS interleavings only through injected latency (threads executor; the processes executor shares async_map_dag). Thread-pool internals are not explored.",
+)
